@@ -10,4 +10,5 @@ Extraction "../ocaml/reserve_model.ml"
   Reserve.set_cc_on_note Reserve.set_cc_on_note_wave Reserve.remove_cc_on
   Reserve.write_cc_on_note Reserve.write_cc_on_note_wave Reserve.run_cc_notes
   Reserve.rand_next Reserve.calc_rand_value Reserve.rand_seq Reserve.rand_values
-  Reserve.set_timepos Reserve.set_v_on_time Reserve.set_res Reserve.get_res Reserve.get_stored Reserve.set_stored.
+  Reserve.set_timepos Reserve.set_v_on_time Reserve.set_res Reserve.get_res Reserve.get_stored Reserve.set_stored
+  Reserve.exec_cmds Reserve.rstate_new Reserve.track_new.
